@@ -11,7 +11,7 @@
 #include "ownership_ref.h"
 
 /* ---- ghost inputs (havocked in the harness) ---- */
-_Bool in_valid, in_is_bus_name, in_active; int in_byte0, in_len;
+_Bool in_valid, in_is_bus_name, in_active; int in_byte0, in_namelen;
 _Bool in_selinux_ok, in_selinux_oom, in_apparmor_ok, in_policy_ok;
 int in_limit, in_n_owned;
 _Bool in_exists, in_req_is_primary, in_req_in_queue, in_p_allow, in_p_dnq;
@@ -32,8 +32,8 @@ struct { int validate, policy_checks, limit_reads, lookup, ensure, find, unlink,
 
 /* ---- contracts of external callees ---- */
 dbus_bool_t _dbus_validate_bus_name (const DBusString *str, int start, int len)
-{ PRE (str == &the_name && start == 0 && len == in_len, "_dbus_validate_bus_name: whole name"); G.validate++; return in_valid; }  /* enforced: C16.bus_name */
-int _dbus_string_get_length (const DBusString *str) { PRE (str == &the_name, "_dbus_string_get_length"); return in_len; }
+{ PRE (str == &the_name && start == 0 && len == in_namelen, "_dbus_validate_bus_name: whole name"); G.validate++; return in_valid; }  /* enforced: C16.bus_name */
+int _dbus_string_get_length (const DBusString *str) { PRE (str == &the_name, "_dbus_string_get_length"); return in_namelen; }
 unsigned char _dbus_string_get_byte (const DBusString *str, int start) { PRE (str == &the_name && start == 0 && G.validate == 1 && in_valid, "_dbus_string_get_byte: validated name, byte 0"); return (unsigned char) in_byte0; }
 const char *_dbus_string_get_const_data (const DBusString *str) { return some_string; }
 dbus_bool_t _dbus_string_equal_c_str (const DBusString *a, const char *c_str)
@@ -81,6 +81,7 @@ void verif_stub_bus_owner_unref (BusOwner *o) { PRE (o == &own_req && G.unlink =
 dbus_bool_t verif_stub_bus_service_add_owner (BusService *s, DBusConnection *c, dbus_uint32_t flags, BusTransaction *t, DBusError *e)
 { PRE (s == &svc && c == REQ && flags == in_flags && t == TX && e != NULL && !ERR_SET (e), "bus_service_add_owner: requester, its flags, this transaction");
   PRE (g_primary != NULL && g_primary->conn != REQ, "bus_service_add_owner: requester is not the current primary (DESIGN 6 C04)");
+  PRE (!(flags & REF_FLAG_DO_NOT_QUEUE) || ((flags & REF_FLAG_REPLACE_EXISTING) && g_primary->allow_replacement), "bus_service_add_owner: with DO_NOT_QUEUE only when about to replace the primary");
   G.add++; G.add_ok = nondet_bool ();
   if (!G.add_ok) { stub_fail (e); return FALSE; }
   set_entry_flags (&own_req, flags);
@@ -101,13 +102,13 @@ dbus_bool_t verif_stub_bus_service_swap_owner (BusService *s, DBusConnection *c,
 void harness (void)
 {
   DBusError err; dbus_uint32_t res = nondet_uint ();
-  in_valid = nondet_bool (); in_is_bus_name = nondet_bool (); in_active = nondet_bool (); in_byte0 = nondet_int (); in_len = nondet_int ();
+  in_valid = nondet_bool (); in_is_bus_name = nondet_bool (); in_active = nondet_bool (); in_byte0 = nondet_int (); in_namelen = nondet_int ();
   in_selinux_ok = nondet_bool (); in_selinux_oom = nondet_bool (); in_apparmor_ok = nondet_bool (); in_policy_ok = nondet_bool ();
   in_limit = nondet_int (); in_n_owned = nondet_int ();
   in_exists = nondet_bool (); in_req_is_primary = nondet_bool (); in_req_in_queue = nondet_bool (); in_p_allow = nondet_bool (); in_p_dnq = nondet_bool ();
   in_flags = nondet_uint ();
   /* preconditions */
-  __CPROVER_assume (in_byte0 >= 0 && in_byte0 <= 255 && in_len >= 0);
+  __CPROVER_assume (in_byte0 >= 0 && in_byte0 <= 255 && in_namelen >= 0);
   __CPROVER_assume (in_n_owned >= 0);                                        /* C13.counters: never negative */
   __CPROVER_assume (IMP (!in_exists, !in_req_is_primary && !in_req_in_queue));
   __CPROVER_assume (!(in_req_is_primary && in_req_in_queue));               /* OWN_INV: no connection twice in a queue */
